@@ -144,15 +144,12 @@ def build_world(spec):
 
 def random_world(rng, np_=(2, 4), nq=(2, 4), lo=1, hi=3, falsy=False, rich=True):
     """Attribute values from a small alphabet so joins are neither empty nor total.  falsy=True also draws
-    0, '', (), None, False (only C19 asks for that)."""
+    0, '', (), [], None, False (only C19 asks for that); a/b/d[k] stay ints (0 included) so order comparisons are defined."""
     def ival():
-        if falsy and rng.random() < 0.35:
-            return rng.choice([0, 0, None, False]) if rng.random() < 0.4 else 0
-        return rng.randint(lo, hi)
+        return rng.randint(0, hi) if falsy else rng.randint(lo, hi)
 
     def sval():
-        pool = ["x", "xy", "y", "yz"] + ([""] if falsy else [])
-        return rng.choice(pool)
+        return rng.choice(["x", "xy", "y", "yz"] + (["", ""] if falsy else []))
 
     def tval():
         pool = [0, 1, 2, 3] if falsy else [1, 2, 3, 4]
@@ -161,20 +158,11 @@ def random_world(rng, np_=(2, 4), nq=(2, 4), lo=1, hi=3, falsy=False, rich=True)
     P_ = []
     for _ in range(rng.randint(*np_)):
         o = {"a": ival(), "b": ival()}
-        if falsy:
-            # keep a/b order-comparable: None/False only in flag / d, ints (incl. 0) in a/b
-            o["a"] = 0 if o["a"] in (None, False) else o["a"]
-            o["b"] = 0 if o["b"] in (None, False) else o["b"]
         if rich:
-            o.update({"s": sval(), "t": tval(), "d": {"k": ival() if not falsy else rng.choice([0, 1, 2])},
-                      "flag": rng.choice([True, False] if not falsy else [True, False, 0, 1, "", "z", None])})
+            o.update({"s": sval(), "t": tval(), "d": {"k": rng.randint(0, 2) if falsy else ival()},
+                      "flag": rng.choice([True, False, 0, 1, "", "z", None, []]) if falsy else rng.choice([True, False])})
         P_.append(o)
     Q_ = []
     for _ in range(rng.randint(*nq)):
-        a = ival()
-        b = ival()
-        if falsy:
-            a = 0 if a in (None, False) else a
-            b = 0 if b in (None, False) else b
-        Q_.append({"a": a, "b": b, "p": rng.randrange(len(P_))})
+        Q_.append({"a": ival(), "b": ival(), "p": rng.randrange(len(P_))})
     return {"P": P_, "Q": Q_}
